@@ -69,6 +69,19 @@ def cases(ctx):
             for s_ in c["inputs"]:
                 if s_["dtype"].startswith("float"):
                     s_["data"] = [v * rng.choice([1, 1, 1.015, 5, -40]) if isinstance(v, (int, float)) else v for v in s_["data"]]
+        if cmd == "CvtToFuzzy" and rng.random() < 0.12:
+            # finite data at the limits of double precision: a spread beyond the double range with thresholds left out, and whole
+            # thresholds beyond 2^53 that are different integers but the same double
+            for s_ in c["inputs"]:
+                if s_["dtype"] == "float64":
+                    if rng.random() < 0.6:
+                        s_["data"] = [rng.choice([-1e308, 1e308, 0.0, 5e307, -1.7e308, 1.7976931348623157e308]) for _ in s_["data"]]
+                        c["params"] = {k_: v_ for k_, v_ in c["params"].items() if k_ == "Direction"}
+                        if rng.random() < 0.3:
+                            c["params"].update({"TrueThreshold": 1e308, "FalseThreshold": -1e308})
+                    else:
+                        s_["data"] = [rng.choice([9007199254740992.0, 9007199254740994.0, 0.0, 9007199254740996.0]) for _ in s_["data"]]
+                        c["params"] = {"TrueThreshold": 9007199254740993, "FalseThreshold": 9007199254740992}
         if cmd in ("CvtToFuzzyZScore", "CvtToFuzzyCurveZScore") and rng.random() < 0.3:
             # data whose mean is huge compared with its spread (time stamps, projected coordinates), and constant fields of a
             # number that has no exact binary form: whatever the statistics come to, the result is fuzzy or missing
